@@ -120,7 +120,9 @@ namespace MEDDLY {
             return false;
         }
         inline static bool stopOnEqualArgs() {
-            return true;
+            // x/x is 1 only where x is finite and nonzero; elsewhere we must
+            // reach the terminals and report the error.
+            return false;
         }
         inline static void makeEqualResult(int L, unsigned in,
                 const edge_value &av, const node_handle &a,
@@ -140,9 +142,8 @@ namespace MEDDLY {
                 const forest* f1, edge_value &av, node_handle &an,
                 const forest* f2, const edge_value &bv, node_handle bn)
         {
-            if (OMEGA_NORMAL == an) {
-                if (0 == EDGETYPE(av)) return true;
-            }
+            // 0/b is 0 only where b is nonzero, so a zero numerator
+            // cannot short-circuit the check of the divisor.
             if (OMEGA_NORMAL == bn) {
                 if (1 == EDGETYPE(bv)) return (!f2->isIdentityReduced());
             }
